@@ -372,7 +372,7 @@ def check_kani_property(prop, spec, tier):
     srcinfo = {}
     for c in set([crate] + [g["crate"] for g in spec["groups"] if g.get("crate")]):
         srcinfo.update(harness_sources(c))
-    all_results = {}
+    all_results = []  # (harness, result, group): a harness may run in several groups (other flags) - every run is judged
     metas = []
     inconclusive = []
     for g in spec["groups"]:
@@ -397,7 +397,7 @@ def check_kani_property(prop, spec, tier):
             r = res.get(h)
             if r is None:
                 inconclusive.append((h, "no result (%s)" % (meta.get("error") or meta.get("build_error") or "missing")))
-            all_results[h] = (r, g)
+            all_results.append((h, r, g))
 
     negatives = set(spec.get("negative", []))
     known = spec.get("known", {})  # harness -> {key, match:[substr]}
@@ -410,7 +410,7 @@ def check_kani_property(prop, spec, tier):
     solver_s = 0.0
     reached = set()
     hrecords = []
-    for h, (r, g) in all_results.items():
+    for h, r, g in all_results:
         if r is None:
             continue
         cls = classify(r)
